@@ -306,7 +306,7 @@ class RandomSched(BaseSched):
                 self.start_tail(k)
             return
         p_here = self.p_act
-        if label == "fork.post":
+        if label in ("fork.post", "assign.pre"):
             p_here = 0.0 if self.no_window else max(self.p_act, self.window)
         if rng.random() >= p_here:
             return
@@ -337,7 +337,7 @@ class RandomSched(BaseSched):
         c = rng.choice(choices)
         self.budget -= 1
         if c == "die":
-            if label == "fork.post" and rng.random() < 0.8:
+            if label in ("fork.post", "assign.pre") and rng.random() < 0.8:
                 pid = k.next_pid - 1
             else:
                 pid = rng.choice(live)
